@@ -230,7 +230,9 @@ func genFlash(r *Rng, bios []byte, fields []uefigen.Field) *flash {
 	}
 	nr := 0
 	if r.Chance(1, 4) {
-		nr = r.Pick(15, 16, 200)
+		// 1..14: an older descriptor that declares fewer regions than the section has slots; the slots from
+		// that index on are not regions even when they look valid (NewFlashImage stops at nr)
+		nr = r.Pick(15, 16, 200, 1, 2, 3, 5, 9, 14)
 	}
 	img[dms+2], img[dms+3], img[dms+4] = byte(regBase), byte(nr), byte(masBase)
 	rs := regBase * 16
@@ -289,8 +291,69 @@ func genFlash(r *Rng, bios []byte, fields []uefigen.Field) *flash {
 		doBIOS()
 	}
 	raw(post)
+	if nr > 0 && nr < 15 {
+		// "falsely valid" slots at and after index nr (no random draws: the choice follows from nr and n):
+		// they overlap the declared regions and must be ignored
+		for i := nr; i < 15; i++ {
+			if i == nr || (i+n)%2 == 0 {
+				putSlot(img, rs, i, 1, n-1)
+			}
+		}
+	}
 	f.img = img
 	return f
+}
+
+// Image is a generated well-formed flash image with the geometry other generators need.
+type Image struct {
+	Img              []byte
+	BiosOff, BiosLen int
+	Blocks           int
+	BiosFields       []uefigen.Field // field map of the BIOS region, offsets relative to the image
+	DescFields       []uefigen.Field // descriptor map bytes and region slots (for boundary-value substitution)
+}
+
+// GenImageInfo builds a well-formed flash image (descriptor, ME/raw regions, gaps, a BIOS region from
+// the reference grammar) together with its geometry and field maps, for the generators of other
+// properties (C04: tiling of the flash; C05: totality of the descriptor parser). nil when no BIOS
+// region of the wanted size came out.
+func GenImageInfo(r *Rng, maxBlocks int) *Image {
+	bios, fields := genBios(r, maxBlocks)
+	if bios == nil {
+		return nil
+	}
+	f := genFlash(r, bios, fields)
+	out := &Image{Img: f.img, BiosOff: f.biosOff, BiosLen: f.biosLen, Blocks: f.nBlocks}
+	for _, fd := range fields {
+		fd.Off += f.biosOff
+		out.BiosFields = append(out.BiosFields, fd)
+	}
+	d := func(name string, off, w int) {
+		out.DescFields = append(out.DescFields, uefigen.Field{Name: name, Off: off, Width: w, Remaining: f.nBlocks, HdrSize: 1})
+	}
+	d("ifd.componentbase", f.dms, 1)
+	d("ifd.regionbase", f.dms+2, 1)
+	d("ifd.nregions", f.dms+3, 1)
+	d("ifd.masterbase", f.dms+4, 1)
+	d("ifd.erasesize", f.rs+2, 2)
+	for i := 0; i < 15; i++ {
+		d(fmt.Sprintf("ifd.slot%d.base", i), f.rs+4+4*i, 2)
+		d(fmt.Sprintf("ifd.slot%d.limit", i), f.rs+6+4*i, 2)
+	}
+	return out
+}
+
+// Hush silences NewFlashImage's prints on os.Stdout (the worker's protocol channel); call before
+// parsing flash images in an executor.
+func Hush() { hush() }
+
+// Wrap builds a well-formed flash image (descriptor block, BIOS region, optionally an ME region,
+// declared raw regions and undeclared gaps) around the BIOS region bytes [bios], which must be
+// whole 4 KiB blocks; it returns the image and the byte offset of the BIOS region in it.
+// (Exported for the executors of the edit properties C02/C03; C01's own cases use genFlash.)
+func Wrap(r *Rng, bios []byte) ([]byte, int) {
+	f := genFlash(r, bios, nil)
+	return f.img, f.biosOff
 }
 
 // a BIOS region from the grammar, padded with trailing padding to whole blocks
@@ -313,6 +376,18 @@ func genBios(r *Rng, maxBlocks int) ([]byte, []uefigen.Field) {
 		return append(b, pad...), fields
 	}
 	return nil, nil
+}
+
+// GenImage returns one well-formed flash image of this grammar (descriptor with signature at 0 or 16,
+// region and master sections at varying bases, a BIOS region from the reference grammar, optionally an ME
+// region with or without a partition table, raw regions in slots 2..14, uncovered ranges), or nil.
+// For the generators of other properties (C07); the C01 stream above does not use it.
+func GenImage(r *Rng, maxBiosBlocks int) []byte {
+	bios, fields := genBios(r, maxBiosBlocks)
+	if bios == nil {
+		return nil
+	}
+	return genFlash(r, bios, fields).img
 }
 
 // Gen emits the flash-image cases of property C01.
